@@ -47,7 +47,7 @@ def entity_info(spec):
 
 def random_spec(rng, shapes=None, strategy=None, plugins=None):
     shapes = shapes or ['articles', 'articles', 'articles_excl', 'composite', 'strkey', 'aliased', 'joined', 'joined3',
-                        'single', 'm2m', 'comment', 'nvparent']
+                        'single', 'm2m', 'comment', 'nvparent', 'm2m_self']
     shape = rng.choice(shapes)
     opts = {'strategy': strategy or rng.choice(['validity', 'validity', 'subquery'])}
     if rng.random() < 0.15:
@@ -87,11 +87,19 @@ def random_spec(rng, shapes=None, strategy=None, plugins=None):
         spec = envs.shape_single(opts, plugins=plugins)
     elif shape == 'm2m':
         spec = envs.shape_m2m(opts, plugins=plugins)
+    elif shape == 'm2m_self':
+        spec = envs.shape_m2m_self(opts, plugins=plugins)
     elif shape == 'nvparent':
         spec = envs.shape_nvparent(opts, plugins=plugins)
     else:
         raise ValueError(shape)
     spec['shape'] = shape
+    if shape in ('articles', 'articles_excl', 'comment', 'joined', 'joined3') and rng.random() < 0.2:
+        # a deferred column (loaded only on access): `content` of the class that has one
+        for c in spec['classes']:
+            for col in c['columns']:
+                if col['name'] == 'content':
+                    col['deferred'] = True
     if opts['strategy'] == 'validity' and rng.random() < 0.1:
         # class-level override of the end-transaction column name (children inherit __versioned__)
         for c in spec['classes']:
@@ -102,7 +110,7 @@ def random_spec(rng, shapes=None, strategy=None, plugins=None):
 
 STEP_WEIGHTS = {
     'add': 5, 'set': 8, 'set_same': 2, 'set_null': 2, 'del': 3, 'readd': 2, 'setrel': 3, 'link': 3, 'unlink': 2,
-    'flush': 5, 'commit': 5, 'rollback': 1, 'query': 1, 'expire': 0, 'manual_tx': 0, 'sp_begin': 0, 'sp_commit': 0, 'sp_rollback': 0,
+    'flush': 5, 'commit': 5, 'rollback': 1, 'query': 1, 'expire': 0, 'expunge': 1, 'manual_tx': 0, 'sp_begin': 0, 'sp_commit': 0, 'sp_rollback': 0,
 }
 
 
@@ -183,6 +191,11 @@ def random_program(rng, spec, nsteps, weights=None, nkeys=3, nvals=4, allow_clas
                 v = rng.randrange(nvals)
             prog.append(['set', k[0], list(k[1]), a, v])
             shadow[(k[0], k[1], a)] = v
+        elif kind == 'expunge':
+            k = existing()
+            if k is None:
+                continue
+            prog.append(['expunge', k[0], list(k[1])])
         elif kind == 'del':
             k = existing()
             if k is None:
